@@ -4,18 +4,21 @@ import (
 	"fmt"
 	"sort"
 	"strings"
+
+	"golang.org/x/tools/go/ssa"
 )
 
 // Heap is a lazily materialised, versioned map from heap-array names to SMT
 // terms. Names:
-//   F|<struct type>|<field>   : (Array Int <fieldsort>)   per-field Burstall heap
-//   M|<elemsort>              : (Array Int (Array Int <elemsort>)) slice/array memory
-//   C|<sort>                  : (Array Int <sort>)        cells for pointers to non-struct values
-//   MD|<ksort>                : (Array Int (Array <ksort> Bool)) map domains
-//   MV|<ksort>|<vsort>        : (Array Int (Array <ksort> <vsort>)) map values
-//   ML                        : (Array Int Int)           map lengths
-//   G|<pkg.var>               : <sort>                    package-level variable
-//   $alloc                    : (Array Int Bool)          allocated refs
+//
+//	F|<struct type>|<field>   : (Array Int <fieldsort>)   per-field Burstall heap
+//	M|<elemsort>              : (Array Int (Array Int <elemsort>)) slice/array memory
+//	C|<sort>                  : (Array Int <sort>)        cells for pointers to non-struct values
+//	MD|<ksort>                : (Array Int (Array <ksort> Bool)) map domains
+//	MV|<ksort>|<vsort>        : (Array Int (Array <ksort> <vsort>)) map values
+//	ML                        : (Array Int Int)           map lengths
+//	G|<pkg.var>               : <sort>                    package-level variable
+//	$alloc                    : (Array Int Bool)          allocated refs
 type Heap struct {
 	vc    *VC
 	kind  int // hRoot, hDerived, hHavoc, hMerge
@@ -159,6 +162,28 @@ func (vc *VC) immutable(name string) bool {
 		return false
 	}
 	return !vc.P.Mutable[name]
+}
+
+// sortedKeysOf returns the keys of any string-keyed map in sorted order. Every map iteration that
+// creates terms, declarations or assertions goes through a sorted order so that the same source
+// tree always produces byte-identical queries (solver run time depends on declaration order).
+func sortedKeysOf[V any](m map[string]V) []string {
+	ks := make([]string, 0, len(m))
+	for k := range m {
+		ks = append(ks, k)
+	}
+	sort.Strings(ks)
+	return ks
+}
+
+// sortedBlocks returns the blocks of a set in SSA index order.
+func sortedBlocks(m map[*ssa.BasicBlock]bool) []*ssa.BasicBlock {
+	bs := make([]*ssa.BasicBlock, 0, len(m))
+	for b := range m {
+		bs = append(bs, b)
+	}
+	sort.Slice(bs, func(i, j int) bool { return bs[i].Index < bs[j].Index })
+	return bs
 }
 
 func sortedKeys(m map[string]bool) []string {
